@@ -24,7 +24,11 @@ RULE = ("Seeds of 16..64 bytes (every length in the quick tier's sweep at least 
         "modelled in Model/HdStr.v over the Base58Check model of C09) for all 20 prefixes and malformed by one "
         "character changed / inserted / dropped / appended, transposition, a leading '1', altered check bytes, "
         "altered payload under the old check bytes, well-checksummed payloads of 0, 77, 79, 80 bytes; path text fuzz (signs, underscores, "
-        "whitespace, empty components, '//') through the real traverse() loops with a recording stub key.")
+        "whitespace, empty components, '//') through the real traverse() loops with a recording stub key; components of "
+        "4299..5000 digit characters (CPython's int() limit of 4300); the six spellings (m|M) x ('|h|H) of index lists "
+        "up to 256 long incl. the boundary indexes; secure_secret_path for depths -1..100 with chosen randbelow results; "
+        "get_private_key's f-string incl. negative / >= 2^31 account and address numbers; seeds of 0, 1, 15, 65, 128, "
+        "1000 bytes (no length check in the code); depth 255 -> 256; blind_xpub with 'm' as starting or secret path.")
 TRUSTED = ["hashlib/hmac (HMAC-SHA512, SHA256, RIPEMD160): universally quantified functions in the theorems",
            "group laws of secp256k1 (record scalar_laws of Proofs/GroupHyp.v): explicit hypothesis of the "
            "derivation theorems, discharged on the toy curve"]
@@ -33,10 +37,10 @@ TRUSTED = ["hashlib/hmac (HMAC-SHA512, SHA256, RIPEMD160): universally quantifie
 # public-key side of the codec and of the string layer (Base58Check and the 78-byte parser inside Coq).
 VM_SKIP = {"from_seed", "child_priv", "child_pub", "pub_of", "traverse_priv", "traverse_pub", "xprv_raw",
            "parse_priv", "raw_parse_priv", "blind_xpub", "xprv_str", "parse_priv_str",
-           "spec_ckd_priv", "spec_ckd_pub", "spec_master"}
+           "spec_ckd_priv", "spec_ckd_pub", "spec_master", "spec_tree", "spec_tree_pub",
+           "get_private_key"}
 
 ASSUMPTIONS = ["path text is ASCII (str.lower/strip/int of non-ASCII letters, spaces and digits are not modelled)",
-               "int() of a component has fewer than 4300 digits (CPython's int-string limit is not modelled)",
                "BIP32's 'IL >= n or child key 0/infinity' event (probability about 2^-127 per derivation) does "
                "not occur: hypothesis of ckd_eq_bip32; no input exhibiting it is known"]
 
@@ -179,7 +183,99 @@ def i_spec_master(seed):
     return [[k.private_key.secret, k.chain_code]]
 
 
+def i_path_text(m, mark, idxs):
+    return chr(m) + "".join("/" + (str(i - H31) + chr(mark) if i >= H31 else str(i)) for i in idxs)
+
+
+def i_secure_secret_path(depth, draws):
+    """blinding.secure_secret_path with secrets.randbelow replaced by a reader of the given draws"""
+    left = list(draws)
+    asked = []
+
+    def fake(n):
+        asked.append(n)
+        return left.pop(0)          # IndexError when the code asks for more draws than were given
+
+    old_rb = blinding.randbelow
+    blinding.randbelow = fake
+    try:
+        out = blinding.secure_secret_path(depth=depth)
+    finally:
+        blinding.randbelow = old_rb
+    if left:
+        raise ValueError("draws left over")
+    assert all(n == 2 ** 31 - 1 for n in asked)
+    return out
+
+
+class _PathRec:
+    """stands for self inside HDPrivateKey.get_private_key: records the path handed to traverse()"""
+
+    def __init__(self, network):
+        self.network = network
+        self.path = None
+        self.private_key = None
+
+    def traverse(self, path):
+        self.path = path
+        return self
+
+
+def i_get_private_key_path(purpose, net, account, ext, addr):
+    r = _PathRec(_netname(net))
+    HDPrivateKey.get_private_key(r, _txt(purpose), account_num=account, is_external=bool(ext), address_num=addr)
+    return r.path
+
+
+def i_get_private_key(kv, purpose, account, ext, addr):
+    return _mkpriv(kv).get_private_key(_txt(purpose), account_num=account, is_external=bool(ext),
+                                       address_num=addr).secret
+
+
+def i_spec_tree(seed, idxs, v, pv):
+    try:
+        k = HDPrivateKey.from_seed(seed)
+        for i in idxs:
+            k = k.child(i)
+    except Exception:
+        return []
+    return [[helper.raw_decode_base58(k.xprv(version=v)), helper.raw_decode_base58(k.xpub(version=pv))]]
+
+
+def i_raw_serialize_history(kv, depths):
+    """ONE HDPublicKey object; before each raw_serialize() call its .depth attribute is reassigned"""
+    k = _mkpub(kv)
+    out = []
+    for d in depths:
+        k.depth = d
+        try:
+            out.append(k.raw_serialize())
+        except Exception:
+            out.append(ERR)
+    return out
+
+
+def i_spec_tree_pub(pt, c, idxs, pv):
+    try:
+        k = HDPublicKey(S256Point(pt[0], pt[1]), c, 0, b"\x00" * 4, 0)
+        for i in idxs:
+            k = k.child(i)
+            if k.point.x is None:
+                return []
+    except Exception:
+        return []
+    return [helper.raw_decode_base58(k.xpub(version=pv))]
+
+
 IMPL = {
+    "raw_serialize_history": i_raw_serialize_history,
+    "spec_tree_pub": i_spec_tree_pub,
+    "dec": lambda n: str(n),
+    "path_text": i_path_text,
+    "secure_secret_path": i_secure_secret_path,
+    "get_private_key_path": i_get_private_key_path,
+    "get_private_key": i_get_private_key,
+    "spec_tree": i_spec_tree,
     "from_seed": lambda seed, net, ver, pv: _vpriv(HDPrivateKey.from_seed(seed, _netname(net), _opt(ver), _opt(pv))),
     "child_priv": lambda kv, i: _vpriv(_mkpriv(kv).child(i)),
     "child_pub": lambda kv, i: _vpub(_mkpub(kv).child(i)),
@@ -910,7 +1006,168 @@ def p_blind_history(seed, idx1, secrets):
     return None
 
 
-PROPS = {"pub_reuse": p_pub_reuse, "priv_reuse": p_priv_reuse, "blind_history": p_blind_history,
+def p_text_spellings(idxs):
+    """the six spellings (m|M) x ('|h|H) of one index list: HDPrivateKey.traverse reads every one back as exactly
+    the list, HDPublicKey.traverse does iff no index is hardened and refuses otherwise, is_valid_bip32_path accepts
+    (at most 255 components), combine_bip32_paths of two halves is the h-spelling of the whole"""
+    want_valid = len(idxs) <= 255
+    for m in "mM":
+        for mark in "'hH":
+            t = i_path_text(ord(m), ord(mark), idxs)
+            got = i_path_indexes_priv(t.encode())
+            if got != list(idxs):
+                return f"HDPrivateKey.traverse reads {t!r} as {got}, written from {list(idxs)}"
+            try:
+                pub = i_path_indexes_pub(t.encode())
+            except ValueError:
+                pub = None
+            if all(i < H31 for i in idxs):
+                if pub != list(idxs):
+                    return f"HDPublicKey.traverse reads {t!r} as {pub}"
+            elif pub is not None:
+                return f"HDPublicKey.traverse accepted the hardened path {t!r}: {pub}"
+            if hd.is_valid_bip32_path(t) != want_valid:
+                return f"is_valid_bip32_path({t!r}) is not {want_valid}"
+            if want_valid:
+                cut = len(idxs) // 2
+                a = i_path_text(ord(m), ord(mark), idxs[:cut])
+                b = i_path_text(ord("M" if m == "m" else "m"), ord({"'": "h", "h": "H", "H": "'"}[mark]), idxs[cut:])
+                c = blinding.combine_bip32_paths(a, b)
+                if c != i_path_text(109, 104, idxs):
+                    return f"combine_bip32_paths({a!r}, {b!r}) = {c!r}"
+                if t.count("/") != len(idxs):
+                    return "number of separators"
+    return None
+
+
+def p_secure_secret_path(depth, draws, seed):
+    """secure_secret_path(depth) with the given randbelow results: a valid path whose public traverse reads back the
+    draws and that blind_xpub accepts, giving the xpub at the combined path (independent reference)"""
+    path = i_secure_secret_path(depth, draws)
+    if not hd.is_valid_bip32_path(path):
+        return f"secure_secret_path returned the invalid path {path!r}"
+    if i_path_indexes_pub(path.encode()) != list(draws) or path.count("/") != depth:
+        return f"secure_secret_path returned {path!r} for the draws {draws}"
+    x = r_xpub(hd.XPUB["mainnet"], r_derive(seed, [H31 + 1])[-1])
+    r = blinding.blind_xpub(x, "m/1h", path)
+    want = r_xpub(hd.XPUB["mainnet"], r_derive(seed, [H31 + 1] + list(draws))[-1])
+    if r["blinded_child_xpub"] != want or r["blinded_full_path"] != i_path_text(109, 104, [H31 + 1] + list(draws)):
+        return f"blind_xpub with the secure secret path {path!r} differs from the reference"
+    return None
+
+
+def p_depth_overflow(seed, idx):
+    """a key of depth 255: child(idx) exists and has depth 256 (nothing checks the depth), but neither its xprv()
+    nor its xpub() can be printed; the depth-255 key itself round-trips; the same on the public side"""
+    k0 = HDPrivateKey.from_seed(seed)
+    k = HDPrivateKey(k0.private_key, k0.chain_code, depth=255, parent_fingerprint=b"\x01\x02\x03\x04", child_number=7)
+    if HDPrivateKey.parse(k.xprv()).depth != 255 or HDPublicKey.parse(k.xpub()).depth != 255:
+        return "a depth-255 key does not round-trip"
+    ch = k.child(idx)
+    if ch.depth != 256 or ch.pub.depth != 256:
+        return f"child of a depth-255 key has depth {ch.depth}"
+    for f in (ch.xprv, ch.xpub, ch.pub.xpub, ch.pub.raw_serialize):
+        try:
+            out = f()
+        except (ValueError, OverflowError):
+            continue
+        return f"a depth-256 key was serialised: {out!r}"
+    if idx < H31:
+        q = k.pub.child(idx)
+        if q.depth != 256:
+            return "public child depth"
+        try:
+            out = q.xpub()
+        except (ValueError, OverflowError):
+            return None
+        return f"a depth-256 public key was serialised: {out!r}"
+    return None
+
+
+def p_blind_degenerate(seed, idx1, idx2, sty):
+    """blind_xpub with the empty secret path "m" returns the starting xpub itself and the normalised starting path;
+    with the root starting path "m" it returns the xpub at the secret path; "m" with "m" returns the root xpub"""
+    k = HDPrivateKey.from_seed(seed)
+    p1, p2 = _path_text(idx1, sty), _path_text(idx2, (sty + 1) % 4)
+    start = k.traverse(p1)
+    for e in ("m", "M"):
+        r = blinding.blind_xpub(start.xpub(), p1, e)
+        if r["blinded_child_xpub"] != start.xpub() or r["blinded_full_path"] != _path_text(idx1, 1):
+            return f"blind_xpub(xpub at {p1!r}, {p1!r}, {e!r}) = {r}"
+        r = blinding.blind_xpub(k.xpub(), e, p2)
+        want = r_xpub(hd.XPUB["mainnet"], r_derive(seed, idx2)[-1])
+        if r["blinded_child_xpub"] != want or r["blinded_full_path"] != _path_text(idx2, 1):
+            return f"blind_xpub(root xpub, {e!r}, {p2!r}) = {r}"
+        r = blinding.blind_xpub(k.xpub(), e, "m")
+        if r["blinded_child_xpub"] != k.xpub() or r["blinded_full_path"] != "m":
+            return f"blind_xpub(root xpub, {e!r}, 'm') = {r}"
+    if idx1 and not _raises(blinding.blind_xpub, start.xpub(), "m", p2):
+        return "blind_xpub accepted the root path for a key of depth > 0"
+    return None
+
+
+def p_norm_meaning(a, b):
+    """the forgiving normalisation never changes what a text means: for texts is_valid_bip32_path accepts, whatever
+    a traverse method reads out of the text it reads out of the normalised text (combine_bip32_paths(a, "m")), and
+    the combination of two readable texts reads as the concatenation — tidy or not"""
+    a, b = _txt(a), _txt(b)
+    for reader in (i_path_indexes_priv, i_path_indexes_pub):
+        got = []
+        for t in (a, b):
+            try:
+                got.append(reader(t.encode()))
+            except Exception:
+                got.append(None)
+        for t, ix in zip((a, b), got):
+            if ix is None or not hd.is_valid_bip32_path(t):
+                continue
+            norm = blinding.combine_bip32_paths(t, "m")
+            try:
+                again = reader(norm.encode())
+            except Exception as e:  # noqa
+                return f"{reader.__name__}: {t!r} reads as {ix} but its normalised form {norm!r} raises {type(e).__name__}"
+            if again != ix:
+                return f"{reader.__name__}: {t!r} reads as {ix} but its normalised form {norm!r} as {again}"
+        if None not in got and hd.is_valid_bip32_path(a) and hd.is_valid_bip32_path(b):
+            z = blinding.combine_bip32_paths(a, b)
+            try:
+                zi = reader(z.encode())
+            except Exception as e:  # noqa
+                return f"{reader.__name__}: combined path {z!r} of {a!r} and {b!r} raises {type(e).__name__}"
+            if zi != got[0] + got[1]:
+                return f"{reader.__name__}: combined path {z!r} reads as {zi}, the parts as {got}"
+    return None
+
+
+def p_int_digit_limit(nd):
+    """a path component of nd digit characters: is_valid_bip32_path, both traverse methods, combine_bip32_paths and
+    blind_xpub agree with each other: up to 4300 digits "000...07" is index 7, from 4301 on every one refuses (int()
+    raises ValueError) and none of them hangs or derives a key"""
+    comp = "0" * (nd - 1) + "7"
+    k = HDPrivateKey.from_seed(b"\x07" * 16)
+    path = "m/" + comp
+    ok = nd <= 4300
+    if hd.is_valid_bip32_path(path) != ok or hd.is_valid_bip32_path(path + "h") != ok:
+        return f"is_valid_bip32_path on a {nd}-digit component is not {ok}"
+    for f, want in ((lambda: k.traverse(path).xprv(), k.child(7).xprv()),
+                    (lambda: k.traverse(path + "'").xprv(), k.child(7 + H31).xprv()),
+                    (lambda: k.pub.traverse(path).xpub(), k.pub.child(7).xpub()),
+                    (lambda: blinding.combine_bip32_paths("m/1", path), "m/1/" + comp),
+                    (lambda: blinding.blind_xpub(k.xpub(), "m", path)["blinded_child_xpub"], k.pub.child(7).xpub())):
+        try:
+            got = f()
+        except ValueError:
+            got = None
+        if ok and got != want:
+            return f"{nd}-digit component: got {got!r}, expected {want!r}"
+        if not ok and got is not None:
+            return f"{nd}-digit component (over CPython's 4300-digit limit) was accepted: {got!r}"
+    return None
+
+
+PROPS = {"int_digit_limit": p_int_digit_limit, "norm_meaning": p_norm_meaning, "text_spellings": p_text_spellings,
+         "secure_secret_path": p_secure_secret_path, "depth_overflow": p_depth_overflow,
+         "blind_degenerate": p_blind_degenerate, "pub_reuse": p_pub_reuse, "priv_reuse": p_priv_reuse, "blind_history": p_blind_history,
          "commute": p_commute, "refuse": p_refuse, "compose": p_compose, "case_notation": p_case_notation,
          "pub_path_same_as_priv": p_pub_path_same_as_priv, "vs_reference": p_vs_reference,
          "xkey_roundtrip": p_xkey_roundtrip, "raw_roundtrip": p_raw_roundtrip, "bad_xkey": p_bad_xkey,
@@ -1017,6 +1274,22 @@ def generate(ctx):
     for _ in range(ctx.n(300, 6000)):
         s = "".join(r.choice("0123456789012345 _+-\t\x1c'hm/") for _ in range(r.randrange(0, 7)))
         yield ("corr", "py_int", [s])
+    # CPython's int-string limit (sys.get_int_max_str_digits() = 4300): digit characters are counted, leading zeros
+    # included, underscores / sign / blanks not.  Model: dig_lim in Model/Hd.v.
+    for nd in (4299, 4300, 4301, 4302, 5000):
+        ctx.label("int-digit-limit/%s" % ("refused" if nd > 4300 else "accepted"))
+        for s in ("0" * nd, "1" + "0" * (nd - 1), "0" * (nd - 1) + "7", "+" + "0" * nd, "-" + "0" * (nd - 1) + "1",
+                  " " + "0" * nd + "\n", "0_" * (nd - 1) + "5", "9" * nd):
+            yield ("corr", "py_int", [s])
+        for comp in ("0" * nd, "0" * (nd - 1) + "3", "0_" * (nd - 1) + "3"):
+            for s in ("m/" + comp, "m/" + comp + "h", "M/1/" + comp + "'/2", "m/" + comp + "/" + comp):
+                yield ("corr", "is_valid_path", [s])
+                yield ("corr", "path_indexes_priv", [s])
+                yield ("corr", "path_indexes_pub", [s])
+                yield ("corr", "combine_paths", [s, "m/1"])
+                yield ("corr", "combine_paths", ["m/1h", s])
+                yield ("corr", "ltrim_path", [s, 1])
+        yield ("prop", "int_digit_limit", [nd])
     fixed = ["m", "M", "m/", "m/0", "M/0/1", "m/0'/1h/2H", "M/0H", "m//0", "m/0//1", "m/0/", "/0", "0/1", "", " m/0", "m/0 ",
              "m/-1", "m/-1'", "m/-5h", "m/2147483648", "m/2147483648'", "m/2147483647'", "m/4294967295", "m/4294967296",
              "mh/0", "m'/0", "H/0", "h", "m/1_0", "m/+1", "m/ 1/2", "m/1'/", "m/1''", "m/'", "m/h", "m/1/m/2", "m/m",
@@ -1039,6 +1312,76 @@ def generate(ctx):
         yield ("corr", "combine_paths", [s, "m/2"])
         yield ("corr", "path_indexes_priv", [s])
 
+    # ---- the texts the library writes / every spelling of an index list (Model/HdText.v)
+    for n in [0, 1, 9, 10, 11, 99, 100, 101, 255, 256, H31 - 2, H31 - 1, H31, 2 ** 32 - 1, 2 ** 32, 10 ** 18, -1, -10,
+              -H31, 10 ** 40, -10 ** 40, 2 ** 64] + [r.randrange(-1000, 10 ** r.randrange(1, 30)) for _ in range(ctx.n(40, 1500))]:
+        yield ("corr", "dec", [n])
+    for i in range(ctx.n(40, 1500)):
+        idxs = [BOUND_IDX, [], [0], [H31 - 1, H31, 2 ** 32 - 1, 0, 1]][i] if i < 4 else rpath(r, 8)
+        m, mark = r.choice([109, 77]), r.choice([39, 104, 72])
+        ctx.label("path-text/depth-%d" % len(idxs))
+        yield ("corr", "path_text", [m, mark, idxs])
+        t = i_path_text(m, mark, idxs)
+        yield ("corr", "path_indexes_priv", [t])
+        yield ("corr", "path_indexes_pub", [t])
+        yield ("corr", "is_valid_path", [t])
+        yield ("prop", "text_spellings", [idxs])
+    for i in range(ctx.n(150, 4000)):
+        ts = []
+        for _ in range(2):
+            c = r.random()
+            t = rforgiving(r).lstrip() if c < 0.5 else _path_text(rpath(r, 4), r.randrange(4)) + r.choice(["", " ", "\n", "\t ", "\x1c"])
+            if c > 0.9:
+                t = rfuzzpath(r)
+            ts.append("".join(ch for ch in t if ord(ch) < 128))
+        ctx.label("norm-meaning/%s" % ("both-valid" if all(hd.is_valid_bip32_path(t) for t in ts) else "some-invalid"))
+        yield ("prop", "norm_meaning", ts)
+    yield ("prop", "norm_meaning", ["M/1H/2 ", "m/3\t"])
+    yield ("corr", "path_text", [109, 39, [-1, 2 ** 32, 2 ** 33]])      # outside the index range: still str()
+    for cnt in (255, 256):
+        yield ("prop", "text_spellings", [[r.choice(BOUND_IDX) for _ in range(cnt)]])
+    for depth in [-1, 0, 1, 2, 4, 31, 32, 33, 100]:
+        n_draws = depth if 1 <= depth < 32 else 0
+        draws = [r.choice([0, 1, H31 - 2, r.randrange(0, H31 - 1)]) for _ in range(n_draws)]
+        ctx.label("secure_secret_path/depth-%s" % ("ok" if 1 <= depth < 32 else "refused"))
+        yield ("corr", "secure_secret_path", [depth, draws])
+        if 1 <= depth <= 4:
+            yield ("prop", "secure_secret_path", [depth, draws, ctx.rbytes(16)])
+    yield ("corr", "secure_secret_path", [3, [1, 2]])            # the code asks for a third draw
+    yield ("corr", "secure_secret_path", [2, [1, 2, 3]])         # a draw left over
+    for i in range(ctx.n(30, 600)):
+        purpose = r.choice(["44'", "49'", "84'", "86'", "0", "48h", "%d'" % r.randrange(0, H31), "x", ""])
+        acc = r.choice([0, 1, 5, H31 - 1, H31, -1, r.randrange(0, H31)])
+        addr = r.choice([0, 1, 19, H31 - 1, H31, -1, r.randrange(0, H31)])
+        yield ("corr", "get_private_key_path", [purpose, r.randrange(4), acc, r.randrange(2), addr])
+    for i in range(ctx.n(2, 40)):
+        purpose = ["44'", "86'", "84'", "49'"][i % 4]
+        acc = [0, 3, H31 - 1][i % 3] if i < 3 else r.randrange(0, H31)
+        yield ("corr", "get_private_key", [rprivargs(r, ctx), purpose, acc, i % 2, r.choice([0, 1, H31 - 1, r.randrange(0, H31)])])
+    yield ("corr", "get_private_key", [rprivargs(r, ctx), "44'", -1, 1, 0])       # "-1'" is the unhardened index 2^31 - 1
+    yield ("corr", "get_private_key", [rprivargs(r, ctx), "44'", 0, 1, H31])      # plain 2^31 is read as hardened 0
+    yield ("corr", "get_private_key", [rprivargs(r, ctx), "44'", H31, 1, 0])      # 2^31' overflows: child() raises
+    # the key tree + serialization format of Spec/Bip32.v against from_seed / child / xprv / xpub
+    for i in range(ctx.n(4, 120)):
+        idxs = [BOUND_IDX, []][i] if i < 2 else rpath(r, 4)
+        yield ("corr", "spec_tree", [rseed(r, ctx, i), idxs, ALL_PRV[i % 10], ALL_PUB[(i * 3) % 10]])
+    for i in range(ctx.n(4, 80)):
+        pa = rpubargs(r, ctx)
+        idxs = [[H31 - 1, 0], [], [0, H31]][i] if i < 3 else rpath(r, 3, hardened_ok=(i % 7 == 0))
+        yield ("corr", "spec_tree_pub", [pa[0], pa[1], idxs, ALL_PUB[i % 10]])
+    # the _raw memo of HDPublicKey.raw_serialize(): call histories with .depth reassigned in between
+    for ds in ([0], [0, 0, 0], [1, 2, 2], [255, 0], [256, 5, 6], [-1, 256, 3, 4], [300, 300]):
+        ctx.label("raw-memo/history")
+        yield ("corr", "raw_serialize_history", [rpubargs(r, ctx), ds])
+    for i in range(ctx.n(5, 100)):
+        yield ("corr", "raw_serialize_history", [rpubargs(r, ctx), [r.choice([0, 1, 255, 256, -1, r.randrange(300)])
+                                                                  for _ in range(r.randrange(1, 6))]])
+    for i in range(ctx.n(2, 20)):
+        yield ("prop", "depth_overflow", [ctx.rbytes(16), [0, H31][i] if i < 2 else ridx(r)])
+        a = rpath(r, 3)
+        b = rpath(r, 3, hardened_ok=False)
+        yield ("prop", "blind_degenerate", [ctx.rbytes(16), a if i else [H31, 0], b if i else [H31 - 1], r.randrange(4)])
+
     # ---- keys: constructors, one-step derivations, both sides
     for i in range(ctx.n(12, 49 * 3)):
         seed = rseed(r, ctx, i)
@@ -1051,6 +1394,12 @@ def generate(ctx):
     yield ("corr", "from_seed", [ctx.rbytes(16), 4, [], []])          # unknown network: KeyError
     yield ("corr", "from_seed", [ctx.rbytes(16), 5, ALL_PRV[0], ALL_PUB[0]])
     yield ("corr", "from_seed", [b"", 0, [], []])
+    # the code checks no seed length (BIP32 recommends 16..64 bytes): shorter and longer seeds derive too
+    for ln in (1, 15, 65, 128, 1000):
+        ctx.label("seed-len/outside-16..64")
+        sd = ctx.rbytes(ln)
+        yield ("corr", "from_seed", [sd, ln % 4, [], []])
+        yield ("corr", "spec_master", [sd])
     for idx in BOUND_IDX + [-1, 2 ** 32, 2 ** 32 + 5] + [ridx(r) for _ in range(ctx.n(12, 300))]:
         kv = rprivargs(r, ctx)
         ctx.label("child/hardened" if idx >= H31 else "child/normal")
